@@ -100,7 +100,7 @@ namespace _fmt_basics {
 	void print_digits(S &sink, T number, bool negative, int radix,
 			int width, int precision, char padding, bool left_justify,
 			bool group_thousands, bool always_sign, bool plus_becomes_space,
-			bool use_capitals, locale_options locale_opts) {
+			bool use_capitals, locale_options locale_opts, const char *prefix = "") {
 		const char *digits = use_capitals ? "0123456789ABCDEF" : "0123456789abcdef";
 		char buffer[64];
 
@@ -137,12 +137,13 @@ namespace _fmt_basics {
 		};
 
 		// print the number in reverse order and determine #digits.
-		do {
+		// With a precision of zero, the value zero has no digits at all.
+		while(number || (!k && precision)) {
 			FRG_ASSERT(k < 64); // TODO: variable number of digits
 			buffer[k++] = digits[number % radix];
 			number /= radix;
 			step_grouping();
-		} while(number);
+		}
 
 		if (k < precision)
 			for (int i = 0; i < precision - k; i++)
@@ -161,7 +162,12 @@ namespace _fmt_basics {
 
 		// The sign is part of the field; zero padding goes between the sign and the digits,
 		// space padding in front of the sign. Left justification always pads with spaces.
-		int final_width = max(k, precision) + extra + (sign ? 1 : 0);
+		// So is the prefix of the alternative form (0x, 0b), which follows the sign.
+		int prefix_length = 0;
+		while(prefix[prefix_length])
+			prefix_length++;
+
+		int final_width = max(k, precision) + extra + (sign ? 1 : 0) + prefix_length;
 
 		if(!left_justify && padding != '0' && final_width < width)
 			for(int i = 0; i < width - final_width; i++)
@@ -169,6 +175,8 @@ namespace _fmt_basics {
 
 		if(sign)
 			sink.append(sign);
+		if(prefix_length)
+			sink.append(prefix);
 
 		if(!left_justify && padding == '0' && final_width < width)
 			for(int i = 0; i < width - final_width; i++)
@@ -199,16 +207,16 @@ namespace _fmt_basics {
 			int precision = 1, char padding = ' ', bool left_justify = false,
 			bool group_thousands = false, bool always_sign = false,
 			bool plus_becomes_space = false, bool use_capitals = false,
-			locale_options locale_opts = {}) {
+			locale_options locale_opts = {}, const char *prefix = "") {
 		if(number < 0) {
 			auto absv = ~static_cast<typename std::make_unsigned_t<T>>(number) + 1;
 			print_digits(sink, absv, true, radix, width, precision, padding,
 					left_justify, group_thousands, always_sign, plus_becomes_space, use_capitals,
-					locale_opts);
+					locale_opts, prefix);
 		}else{
 			print_digits(sink, number, false, radix, width, precision, padding,
 					left_justify, group_thousands, always_sign, plus_becomes_space, use_capitals,
-					locale_opts);
+					locale_opts, prefix);
 		}
 	}
 
